@@ -165,6 +165,19 @@ class ListItemRef(Ty):
         return "lref:" + self.rec.name
 
 
+class SetSlotRef(Ty):
+    """reference to a set stored BY VALUE in a list slot (`List(VSet(t))`): z = (list ref V, index term); add / update / remove /
+    discard write the new set value back into the slot (ownership: the set belongs to that slot)"""
+
+    kind = "sref"
+
+    def __init__(self, vset):
+        self.vset = vset
+
+    def key(self):
+        return "sref:" + self.vset.key()
+
+
 class Seq(Ty):
     """Immutable finite sequence value (tuple of unknown length, or the content of a list)."""
 
